@@ -944,23 +944,28 @@ func (c *Compiler) compileConst(node *ast.Const) error {
 }
 
 func (c *Compiler) compileIn(node *ast.In) error {
-	if err := c.compile(node.Right()); err != nil {
-		return err
-	}
+	// Evaluate the operands from left to right, then put the container below
+	// the item, which is the order the ContainsOp instruction expects
 	if err := c.compile(node.Left()); err != nil {
 		return err
 	}
+	if err := c.compile(node.Right()); err != nil {
+		return err
+	}
+	c.emit(op.Swap, 1)
 	c.emit(op.ContainsOp, 0)
 	return nil
 }
 
 func (c *Compiler) compileNotIn(node *ast.NotIn) error {
-	if err := c.compile(node.Right()); err != nil {
-		return err
-	}
+	// Evaluate the operands from left to right (see compileIn)
 	if err := c.compile(node.Left()); err != nil {
 		return err
 	}
+	if err := c.compile(node.Right()); err != nil {
+		return err
+	}
+	c.emit(op.Swap, 1)
 	c.emit(op.ContainsOp, 0)
 	c.emit(op.UnaryNot)
 	return nil
